@@ -294,6 +294,7 @@ class NumExec:
         if isinstance(st, ast.If):
             out = []
             for c0, cond in s.ev(st.test, env, pc):
+                if isinstance(cond, Poly) and cond.is_const(): cond = bool(cond.cval())
                 for cnd, body in ((cond, st.body), (neg(cond), st.orelse)):
                     if cnd is False: continue
                     pc2 = pc + c0 + ([] if cnd is True else [cnd])
@@ -302,6 +303,8 @@ class NumExec:
                         if r[0] == 'fall': out += s.block(rest, r[2], r[1])
                         else: out.append(r)
             return out
+        if isinstance(st, ast.Raise):
+            return [('exc', pc, None)]
         raise Unsupported(f'statement {type(st).__name__} line {st.lineno}')
 
     def bind(s, t, v, env):
@@ -514,6 +517,10 @@ class Z3Exact:
         if a.f == 'INV': return 1 / s.poly(a.args[0])
         if a.f == 'ABS':
             t = s.poly(a.args[0]); return z3.If(t >= 0, t, -t)
+        if a.args and a.f not in s.ranges:
+            # an uninterpreted function of its (exactly translated) arguments: congruence is available to the solver
+            f = z3.Function('uf_' + a.f, *([z3.RealSort()] * len(a.args)), z3.RealSort())
+            return f(*[s.poly(x) for x in a.args])
         if a.key not in s.consts:
             x = z3.Real(f'x{len(s.consts)}_{a.f}'); s.consts[a.key] = x
             if a.f in s.ranges:
@@ -556,7 +563,7 @@ def exact_equal(pcs, a, b, ranges):
             if at.f == 'INV': count(at.args[0], seen)
             else: seen.add(at.key)
         return seen
-    if len(count(d, set())) > 4: return False
+    if len(count(d, set())) > 10: return False
     ze = Z3Exact(ranges=ranges)
     r, _ = ze.prove(pcs, ze.poly(a) == ze.poly(b), timeout=10000)
     return r == 'proved'
